@@ -35,10 +35,14 @@ func init() {
 			{ID: "R11i", Floor: 2, Doc: "decode loops store a fresh object per iteration: a pointer put into an index container inside a loop of package index points to an allocation made in that iteration (a pointer to a variable declared outside the loop makes every entry alias the last one decoded)", Run: ruleR11i},
 			{ID: "R11k", Floor: 1, Doc: "index decoders read exactly what they decode: no buffering reader (bufio) is put over the shared reader inside package index — it reads ahead, and the caller's next group or the next index field starts at the wrong byte", Run: ruleR11k},
 			{ID: "R11l", Floor: 1, Doc: "the digests the sorted index files its records under are those of a multihash decoder (DecodedMultihash.Digest), not a hand-computed slice of the multihash (length prefixes are varints)", Run: ruleR11l},
+			{ID: "R11o", Floor: 1, Doc: "index.New constructs exactly the two index formats of the CARv2 specification (0x0400 IndexSorted, 0x0401 MultihashIndexSorted): every other codec — the no-index sentinel, the in-memory insertion index — is refused, so nothing that is not a real on-disk index can be announced by a finalized header or decoded from a file", Run: ruleR11o},
 			{ID: "R11e", Floor: 1, Doc: "rescan indexes every section (= R12c)", Run: ruleR12c},
 			{ID: "R11j", Floor: 1, Doc: "index generation loads all records in one Load (bucket-overwriting codecs lose earlier batches) (= R03h)", Run: ruleR03h},
 			{ID: "R11m", Floor: 2, Doc: "a regenerated index records true section offsets (= R03b)", Run: ruleR03b},
 			{ID: "R11n", Floor: 1, Doc: "the rescan ends where the payload ends (payload-relative position against DataSize) (= R03e)", Run: ruleR03e},
+			{ID: "R11p", Floor: 4, Doc: "index regeneration from a stream positions itself through the audited reader adapters only (= R03o)", Run: ruleR03o},
+			{ID: "R11r", Floor: 1, Doc: "index decoders read their fixed-size fields completely (= R02i)", Run: ruleR02i},
+			{ID: "R11q", Floor: 1, Doc: "a decoded bucket has exactly as many records as the bytes read for it hold (= R09f)", Run: ruleR09f},
 		},
 	})
 }
@@ -83,6 +87,12 @@ func ruleR11a(c *Ctx, r *Report) {
 					return true
 				}
 				fnName := enclosingFuncName(f, rs.Pos())
+				// a helper the normalisation pass has inlined into all its callers is judged there
+				if fd := enclosingFuncDecl(f, rs.Pos()); fd != nil {
+					if o, _ := p.TypesInfo.Defs[fd.Name].(*types.Func); o != nil && c.deadNewHelpers()[o] {
+						return true
+					}
+				}
 				ord[fnName]++
 				key := fmt.Sprintf("map-range@%s.%s#%d", shortPkg(pp), fnName, ord[fnName])
 				bad := mapRangeBodyProblem(p, f, rs)
@@ -152,6 +162,27 @@ func sortedOrLoadedAfter(p *packages.Package, file *ast.File, rs *ast.RangeStmt,
 	info := p.TypesInfo
 	ok := false
 	otherUse := false
+	// the slice under other names: plain copies `r0 = rcrds` after the loop (what the inlining of
+	// a helper that returns the slice leaves behind)
+	names := map[types.Object]bool{o: true}
+	for round := 0; round < 3; round++ {
+		ast.Inspect(file, func(nd ast.Node) bool {
+			as, isAs := nd.(*ast.AssignStmt)
+			if !isAs || as.Pos() < rs.End() || len(as.Lhs) != len(as.Rhs) {
+				return true
+			}
+			for i, rh := range as.Rhs {
+				rid, ok1 := ast.Unparen(rh).(*ast.Ident)
+				lid, ok2 := as.Lhs[i].(*ast.Ident)
+				if ok1 && ok2 && names[info.Uses[rid]] {
+					if lo := info.ObjectOf(lid); lo != nil {
+						names[lo] = true
+					}
+				}
+			}
+			return true
+		})
+	}
 	ast.Inspect(file, func(nd ast.Node) bool {
 		ce, isCall := nd.(*ast.CallExpr)
 		if !isCall || ce.Pos() < rs.End() {
@@ -160,7 +191,7 @@ func sortedOrLoadedAfter(p *packages.Package, file *ast.File, rs *ast.RangeStmt,
 		usesObj := func(e ast.Expr) bool {
 			found := false
 			ast.Inspect(e, func(n ast.Node) bool {
-				if id, isId := n.(*ast.Ident); isId && info.Uses[id] == o {
+				if id, isId := n.(*ast.Ident); isId && names[info.Uses[id]] {
 					found = true
 				}
 				return true
@@ -996,6 +1027,12 @@ func ruleR11l(c *Ctx, r *Report) {
 			return
 		}
 		n++
+		// the whole digest, not a part of it
+		for _, leaf := range phiLeaves(st.Val) {
+			if sl, isSl := canon(leaf).(*ssa.Slice); isSl && (sl.Low != nil || sl.High != nil) {
+				bad = fmt.Sprintf("the digest stored at %s is a sub-slice of the decoded digest: records that agree on the kept part answer for each other, and a key that is absent is reported found", c.Pos(st.Pos()))
+			}
+		}
 		for _, o := range origins(st.Val, originOpts{}) {
 			if o.Kind == "field" && o.Field != nil && o.Field.Name() == "Digest" {
 				continue
@@ -1008,4 +1045,43 @@ func ruleR11l(c *Ctx, r *Report) {
 		return
 	}
 	r.Check(bad == "", key, c.Pos(fn.Pos()), fmt.Sprintf("%d record(s) built from the decoder's digest", n), bad)
+}
+
+func ruleR11o(c *Ctx, r *Report) {
+	nw, err := c.Func(pkgIndex, "", "New")
+	if err != nil {
+		r.InfraFail("%v", err)
+		return
+	}
+	key := "registry-set@v2/index.New"
+	var got []string
+	for _, b := range nw.Blocks {
+		if len(b.Instrs) == 0 {
+			continue
+		}
+		iff, ok := b.Instrs[len(b.Instrs)-1].(*ssa.If)
+		if !ok {
+			continue
+		}
+		bo, ok := iff.Cond.(*ssa.BinOp)
+		if !ok || bo.Op != token.EQL || canon(bo.X) != ssa.Value(nw.Params[0]) {
+			continue
+		}
+		if k, ok := constInt(bo.Y); ok {
+			got = append(got, fmt.Sprintf("%#x", k))
+		}
+	}
+	sort.Strings(got)
+	want := "[0x400 0x401]"
+	r.Check(fmt.Sprint(got) == want, key, c.Pos(nw.Pos()), "dispatches exactly 0x400 and 0x401",
+		fmt.Sprintf("index.New dispatches %v, the specification's index formats are %s: a codec accepted here can be written as, and read back as, the index of a CARv2", got, want))
+}
+
+func enclosingFuncDecl(f *ast.File, pos token.Pos) *ast.FuncDecl {
+	for _, d := range f.Decls {
+		if fd, ok := d.(*ast.FuncDecl); ok && fd.Body != nil && pos >= fd.Pos() && pos <= fd.End() {
+			return fd
+		}
+	}
+	return nil
 }
